@@ -1,0 +1,8 @@
+//go:build verif
+
+package cli
+
+// Contracts for the deductive verifier in /verif (govc). Comments only; compiled solely with -tags verif.
+
+//@ assume func ContainsString
+//@   pure
